@@ -373,6 +373,8 @@ spf_appendmakro(char **res, unsigned int *l, const char *const s, const unsigned
 			v = strlen(dot);
 		}
 		memcpy(tmp, dot, v);
+		/* urlencode() and strlen() below need a terminated string */
+		tmp[nl] = '\0';
 		free(news);
 		start = news = tmp;
 	} else {
